@@ -489,6 +489,9 @@ func internStrings(r *rand.Rand, a *internArgs) []string {
 	out = append(out, gen.DistinctStrings(r, per, 8, 18)...)
 	// just beyond the cached length, and non-ASCII
 	out = append(out, gen.CollisionFamily(r, 8, 257, "X")...)
+	out = append(out, gen.CollisionFamily(r, 4, 300, "Y")...)
+	out = append(out, gen.CollisionFamily(r, 4, 1000, "Z")...)
+	out = append(out, gen.CollisionFamily(r, 2, 5000, "W")...)
 	for i := 0; i < per/2; i++ {
 		out = append(out, fmt.Sprintf("é%dü%d€", i, i*7))
 	}
@@ -815,7 +818,7 @@ func main() {
 
 func generate(w *run.W) {
 	// (a) grammar-directed valid texts
-	nb := w.Pick(320, 3200)
+	nb := w.Pick(320, 12000)
 	for batch := 0; batch < nb; batch++ {
 		if !w.Mine(batch) {
 			continue
@@ -844,7 +847,7 @@ func generate(w *run.W) {
 			"123456789012345678901234567890", "1e23", "8.41e21", "2.2250738585072011e-308", "2.2250738585072014e-308", "-0", "-0.0", "-0e10", "0e-5", "1E400", "1e+400",
 			"100000000000000000000000000000000000000000000000000000000000000000000000000000000000000000000000000000000000000000000000000000000000000000000000000000000000000000000000000000000000000000000000000000000000000000000000000000000000000000000000000000000000000000000000000000000000000000000000000000000000000000000000000")
 		r := w.Rand("numbers")
-		for i := 0; i < w.Pick(3000, 30000); i++ {
+		for i := 0; i < w.Pick(3000, 100000); i++ {
 			lits = append(lits, gen.ValidNumber(r))
 		}
 		for i, l := range lits {
@@ -860,7 +863,7 @@ func generate(w *run.W) {
 			}
 		}
 		cfg := &gen.ValidCfg{}
-		for i := 0; i < w.Pick(3000, 30000); i++ {
+		for i := 0; i < w.Pick(3000, 100000); i++ {
 			s := gen.ValidString(r, cfg)
 			if !mine() {
 				continue
@@ -897,7 +900,7 @@ func generate(w *run.W) {
 		r := w.Rand("intern")
 		type ic struct{ n, l int }
 		cases := []ic{{300, 0}, {1000, 0}, {5000, 0}, {300, 19}, {300, 24}, {1000, 32}, {2000, 64}, {300, 200}, {5000, 256}, {300, 256}, {64, 257}, {600, 20}}
-		reps := w.Pick(2, 12)
+		reps := w.Pick(2, 40)
 		for rep := 0; rep < reps; rep++ {
 			for _, c := range cases {
 				seed := r.Uint64()
